@@ -300,6 +300,12 @@ func execConnServe(toks []string) string {
 			} else {
 				o.mc.readError(errMemRead)
 			}
+		case e == "Y": // a read error that calls itself temporary (and is not a timeout)
+			if o.mc.isDone() {
+				enabled = false
+			} else {
+				o.mc.readError(scriptedErr{temp: true})
+			}
 		case e == "L":
 			if o.mc.isClosed() {
 				enabled = false
@@ -514,7 +520,7 @@ func genConnServe(r *RNG, n int, op string, emit func(string)) {
 			case choice < 79:
 				evs = append(evs, fmt.Sprintf("%d:E", k))
 			case choice < 83:
-				evs = append(evs, fmt.Sprintf("%d:R", k))
+				evs = append(evs, fmt.Sprintf("%d:%s", k, []string{"R", "R", "Y"}[r.Intn(3)]))
 			case choice < 87:
 				evs = append(evs, fmt.Sprintf("%d:L", k))
 			case choice < 91:
@@ -534,7 +540,7 @@ func genConnServe(r *RNG, n int, op string, emit func(string)) {
 		for k := 0; k < nc; k++ {
 			evs = append(evs, fmt.Sprintf("%d:H", k))
 			if r.Chance(50) {
-				evs = append(evs, fmt.Sprintf("%d:%s", k, []string{"E", "L", "R"}[r.Intn(3)]))
+				evs = append(evs, fmt.Sprintf("%d:%s", k, []string{"E", "L", "R", "Y"}[r.Intn(4)]))
 				evs = append(evs, fmt.Sprintf("%d:H", k))
 			}
 			if r.Chance(40) {
